@@ -107,7 +107,12 @@ ValOf(env, n)  == (CHOOSE b \in env : b[1] = n)[2]
 Bind(env, n, v) == env \cup {<<n, v>>}
 
 \* flags: cx.mfm / cx.ofm (mnemonics-full-match / operands-full-match)
-NameHolds(name, txt, full) == IF full THEN txt = name ELSE IsInfixStr(name, txt)
+\* The shipped wildcard macro @any (tests/macros/jasm_macros.yaml, README "Matches any
+\* command"): as a mnemonic or operand name it stands for any one non-empty field.
+AnyName == "@any"
+NameHolds(name, txt, full) ==
+    IF name = AnyName THEN txt # ""
+    ELSE IF full THEN txt = name ELSE IsInfixStr(name, txt)
 
 (***************************************************************************)
 (* Deref-field level: MF(fp, comp, isReg, env) \subseteq environments      *)
@@ -173,6 +178,12 @@ MOB(q, ops, k, env, cx) ==
                    IF Bound(env, q.name)
                    THEN (IF \E rw \in cands : rw[1] = ValOf(env, q.name) THEN {<<k + 1, env>>} ELSE {})
                    ELSE { <<k + 1, Bind(env, q.name, rw[1])>> : rw \in cands }
+             \* instantiation targets of C05_Subst (no concrete syntax): an operand equal to a
+             \* text / the register q.name of family q.fam at width q.w (any width if "")
+             [] q.k = "oexact" -> IF o = q.name THEN {<<k + 1, env>>} ELSE {}
+             [] q.k = "rexact" ->
+                   IF \E rw \in RegOf(q.fam, o) : rw[1] = q.name /\ (q.w = "" \/ rw[2] = q.w)
+                   THEN {<<k + 1, env>>} ELSE {}
              [] q.k = "deref" ->
                    LET m == ParseMem(o) IN
                    IF m.ok THEN { <<k + 1, e2>> : e2 \in MDeref(q, m, 1, env) } ELSE {}
@@ -206,6 +217,10 @@ MIB(p, cx, i, env) ==
                    \* further operands are free (C01)
                    THEN { <<i + 1, r[2]>> : r \in MOS(p.kids, ins.ops, 1, env, cx) }
                    ELSE {}
+             \* instantiation target of C05_Subst: exactly this mnemonic and these operands
+             [] p.k = "xins" ->
+                   IF ins.mn = p.name /\ ins.ops = [k \in DOMAIN p.kids |-> p.kids[k].name]
+                   THEN {<<i + 1, env>>} ELSE {}
              [] p.k = "icap" ->
                    LET v == <<ins.mn, ins.ops>> IN
                    IF Bound(env, p.name)
